@@ -3,6 +3,7 @@ package props
 import (
 	"errors"
 	"fmt"
+	"hash/crc32"
 	"io"
 
 	"github.com/parquet-go/parquet-go"
@@ -151,11 +152,17 @@ func (r *c13run) enumerate() *core.Violation {
 	total := int64(0)
 	for i, p := range r.pages {
 		if !p.HasCRC {
-			r.c.Probe("page-without-crc-skipped")
+			// the reader treats a stored CRC of 0 as "absent": only a page whose
+			// true checksum is 0 may legitimately look like this
+			if sum := crc32.ChecksumIEEE(r.good[p.BodyOff : p.BodyOff+p.BodyLen]); sum != 0 && p.BodyLen > 0 {
+				kk := C13Case{Page: i, Path: "layout"}
+				sc.Failed = &kk
+				return core.Violate("C13/page-written-without-checksum", "page %d (rg=%d col=%d %s, %d body bytes) carries no CRC although its checksum is 0x%08X: corruption of it can never be detected", i, p.RowGroup, p.Column, p.Path, p.BodyLen, sum)
+			}
+			r.c.Probe("page-with-true-crc-0-skipped")
 			continue
 		}
 		total += p.BodyLen
-		_ = i
 	}
 	if total == 0 {
 		return nil
@@ -271,6 +278,9 @@ func (r *c13run) applicable(k C13Case) bool {
 func isCorrupted(err error) bool { return errors.Is(err, parquet.ErrCorrupted) }
 
 func (r *c13run) run1(k C13Case) (v *core.Violation) {
+	if k.Path == "layout" {
+		return r.enumerateLayoutOnly()
+	}
 	defer func() {
 		if p := recover(); p != nil {
 			v = core.Violate("C13/panic/"+k.Path, "panic: %v%s", p, core.StackIfWanted())
@@ -465,6 +475,19 @@ func (r *c13run) run1(k C13Case) (v *core.Violation) {
 				}
 			} else {
 				stalls = 0
+			}
+		}
+	}
+	return nil
+}
+
+// enumerateLayoutOnly re-runs the writer-side checksum check (used when a
+// replay is focused on it).
+func (r *c13run) enumerateLayoutOnly() *core.Violation {
+	for i, p := range r.pages {
+		if !p.HasCRC && p.BodyLen > 0 {
+			if sum := crc32.ChecksumIEEE(r.good[p.BodyOff : p.BodyOff+p.BodyLen]); sum != 0 {
+				return core.Violate("C13/page-written-without-checksum", "page %d (rg=%d col=%d %s) carries no CRC although its checksum is 0x%08X", i, p.RowGroup, p.Column, p.Path, sum)
 			}
 		}
 	}
